@@ -64,9 +64,12 @@ func scenarios(tier string) []scenario {
 			if x == "ce" || y == "ce" {
 				controls = append(controls, "cerotate")
 			}
+			if x == "gated" || y == "gated" {
+				controls = append(controls, "gatedexpire")
+			}
 			for _, c := range controls {
 				senders := 1
-				if c == "none" {
+				if c == "none" || c == "gatedexpire" {
 					senders = 2
 				}
 				out = append(out, scenario{X: x, Y: y, Senders: senders, Control: c, Bound: b})
@@ -85,6 +88,8 @@ func scenarios(tier string) []scenario {
 		// the non-default choices at blocking points as well (reported in the name)
 		if tier == "thorough" {
 			s.Free = 3
+		} else if s.Control == "gatedexpire" {
+			s.Bound, s.Free = 1, 2 // the second sender must be able to overtake the first inside its Sender.Send
 		} else if s.Senders == 2 {
 			s.Bound, s.Free = 0, 3
 		} else {
@@ -155,17 +160,30 @@ func (w *lineWriter) Write(p []byte) (int, error) { w.add(p); return len(p), nil
 //go:norace
 func (w *lineWriter) all() [][]byte { return w.lines[:min(w.n, len(w.lines))] }
 
+type nullSender struct{ n int }
+
+//go:norace
+func (s *nullSender) count() { s.n++ }
+
+func (s *nullSender) Send(ctx context.Context, t el.EventType, payload interface{}) (el.Status, error) {
+	s.count()
+	vrt.Point("inside Sender.Send")
+	return el.Status{}, nil
+}
+
 type world struct {
-	b       *el.Broker
-	writers []*lineWriter
-	files   []string
-	chans   []chan *el.Event
-	encs    []*encrypt.Filter
-	ces     []*ce.FormatterFilter
-	nodeN   int
-	dir     string
-	rec     *hn.GateRec
-	clk     *hn.Clock
+	gateBroker bool
+	gates      []*gated.Filter
+	b          *el.Broker
+	writers    []*lineWriter
+	files      []string
+	chans      []chan *el.Event
+	encs       []*encrypt.Filter
+	ces        []*ce.FormatterFilter
+	nodeN      int
+	dir        string
+	rec        *hn.GateRec
+	clk        *hn.Clock
 }
 
 func (w *world) reg(n el.Node) el.NodeID {
@@ -195,7 +213,13 @@ func (w *world) mk(kind string) (el.Node, string) {
 		w.encs = append(w.encs, f)
 		return f, ""
 	case "gated":
-		return &gated.Filter{Broker: nil, Expiration: time.Second, NowFunc: w.clk.Now}, ""
+		f := &gated.Filter{Broker: nil, Expiration: time.Second, NowFunc: w.clk.Now}
+		if w.gateBroker {
+			// expired groups are flushed through a Sender: both senders can enter the expiry sweep
+			f.Broker = &nullSender{}
+		}
+		w.gates = append(w.gates, f)
+		return f, ""
 	case "filesink":
 		p := filepath.Join(w.dir, fmt.Sprintf("fs%d", len(w.files)))
 		w.files = append(w.files, p)
@@ -232,7 +256,7 @@ func body(sc scenario, scratch string) func() string {
 			vrt.Fail("harness: %v", err)
 		}
 		defer os.RemoveAll(dir)
-		w := &world{dir: dir, rec: &hn.GateRec{Type: "composite"}, clk: &hn.Clock{}}
+		w := &world{dir: dir, rec: &hn.GateRec{Type: "composite"}, clk: &hn.Clock{}, gateBroker: sc.Control == "gatedexpire"}
 		w.b, _ = el.NewBroker()
 		vrt.Quiet(func() {
 			var shared el.Node
@@ -272,6 +296,15 @@ func body(sc scenario, scratch string) func() string {
 			build("p2", sc.Y, false)
 		})
 		ctx := context.Background()
+		if sc.Control == "gatedexpire" {
+			// one group is already gated and has expired when the two senders arrive
+			vrt.Quiet(func() {
+				for _, gf := range w.gates {
+					gf.Process(ctx, &el.Event{Type: "t", Payload: &gp{ID: "old", Seq: 100}})
+				}
+				w.clk.Advance(2 * time.Second)
+			})
+		}
 		for i := 0; i < sc.Senders; i++ {
 			i := i
 			vrt.GoNamed(fmt.Sprintf("sender%d", i), func() {
@@ -358,7 +391,7 @@ func main() {
 			ex := &vrt.Explorer{Bound: sc.Bound, FreeBound: sc.Free, Body: body(sc, scratch)}
 			return hk.ExploreJob(prop, job, deadline, ex, sc.Name)
 		},
-		Rule: "for every ordered pair (X,Y) of stock node kinds {Filter, JSONFormatter, JSONFormatterFilter, cloudevents FormatterFilter, encrypt.Filter, gated.Filter, FileSink (MaxBytes=8, real directory), writer.Sink, ChannelSink}: two pipelines of one event type, X as an inner node of pipeline 1 (it runs in a child goroutine) and Y at the head of pipeline 2, so both work on the same *Event concurrently; separate instances and, for stateful kinds, one shared instance; 1-2 sender threads plus a control thread {none, Broker.Reopen, encrypt.Filter.Rotate, cloudevents Rotate}; every schedule within the bounds stated in each scenario's name (quick: 0-1 preemptions and 2-3 non-default switches at blocking points; thorough: 2 preemptions, 3 non-default switches) under the Go race detector inside the controlled scheduler; oracles: race / panic / deadlock per execution, every write received by a sink is one complete JSON line, no overlapping writes.",
+		Rule: "for every ordered pair (X,Y) of stock node kinds {Filter, JSONFormatter, JSONFormatterFilter, cloudevents FormatterFilter, encrypt.Filter, gated.Filter, FileSink (MaxBytes=8, real directory), writer.Sink, ChannelSink}: two pipelines of one event type, X as an inner node of pipeline 1 (it runs in a child goroutine) and Y at the head of pipeline 2, so both work on the same *Event concurrently; separate instances and, for stateful kinds, one shared instance; 1-2 sender threads plus a control {none, Broker.Reopen, encrypt.Filter.Rotate, cloudevents Rotate, an expired gated group that both senders try to flush through a Sender}; every schedule within the bounds stated in each scenario's name (quick: 0-1 preemptions and 2-3 non-default switches at blocking points; thorough: 2 preemptions, 3 non-default switches) under the Go race detector inside the controlled scheduler; oracles: race / panic / deadlock per execution, every write received by a sink is one complete JSON line, no overlapping writes.",
 		Assumptions: []string{
 			"race detection is happens-before based, so low preemption bounds already expose every unordered access pair of the visited synchronisation orders",
 			"8 senders and 4-pipeline compositions of the statement are not reached",
